@@ -468,6 +468,113 @@ def extract_flags(includes=()):
     return out
 
 
+_IDENT = re.compile(r"[A-Za-z_]\w*")
+
+
+def _strip_comments_strings(text):
+    return re.sub(r"/\*.*?\*/|//[^\n]*|\"(?:\\.|[^\"\\])*\"|'(?:\\.|[^'\\])*'", " ", text, flags=re.S)
+
+
+def file_local_context(src, path, cut_ranges, cut_texts, already, kinds=None):
+    """File-local definitions of the SAME source file that the cut functions reference and that the prelude does not provide: object-like and
+    function-like `#define`s (directive text verbatim, continuation lines included), `enum {...};` blocks, `static const` objects / tables and
+    `typedef`s at file scope.  Transitive (a macro that uses another macro brings it along).  -> (text with #line directives, [names])
+    Only what is referenced is taken, so a file whose cut compiled before gets nothing new."""
+    ents = []           # (start, end, names, text)
+    # --- directives
+    for m in re.finditer(r"^[ \t]*#[ \t]*define[ \t]+(\w+)(?:[^\n\\]|\\\n|\\[^\n])*", src, re.M):
+        ents.append((m.start(), m.end(), [m.group(1)], m.group(0), "define"))
+    # --- file-scope declarations: statements between top-level `;` / `}` that are enum blocks, static const objects or typedefs
+    code = list(_scan_top_level(src))
+    stmt_start = 0
+    k = 0
+    n = len(code)
+    while k < n:
+        pos, ch, depth = code[k]
+        if depth == 0 and ch == ";":
+            seg = src[stmt_start:pos + 1]
+            body = seg.lstrip()
+            lead = len(seg) - len(body)
+            # skip leading comments / preprocessor lines
+            while True:
+                mm = re.match(r"\s+|/\*.*?\*/|//[^\n]*|#(?:[^\n\\]|\\\n|\\[^\n])*", body, re.S)
+                if not mm:
+                    break
+                lead += mm.end()
+                body = body[mm.end():]
+            st = stmt_start + lead
+            flat = _strip_comments_strings(body)
+            names = []
+            kind = None
+            if re.match(r"(typedef\s+)?enum\b[^{;]*\{", flat) and not re.match(r"typedef", flat):
+                inner = flat[flat.index("{") + 1:flat.rindex("}")] if "}" in flat else ""
+                names = [x.split("=")[0].strip() for x in inner.split(",") if x.strip()]
+                names = [x for x in names if re.fullmatch(r"\w+", x)]
+                tag = re.match(r"enum\s+(\w+)", flat)
+                kind = "enum"
+            elif re.match(r"static\s+const\b", flat) and "(" not in flat.split("=")[0]:
+                head = flat.split("=")[0]
+                mm = re.search(r"(\w+)\s*(?:\[[^\]]*\]\s*)*$", head.strip())
+                if mm:
+                    names = [mm.group(1)]
+                    kind = "static const"
+            elif re.match(r"typedef\b", flat) and "(" not in flat:
+                mm = re.search(r"(\w+)\s*(?:\[[^\]]*\]\s*)*;\s*$", flat)
+                if mm:
+                    names = [mm.group(1)]
+                    kind = "typedef"
+            if kind and names:
+                ents.append((st, pos + 1, names, src[st:pos + 1], kind))
+            stmt_start = pos + 1
+        elif depth == 0 and ch == "}":
+            # end of a function body (or of a block that continues to a `;`): a function definition ends here
+            if _looks_like_function_end(src, stmt_start, pos):
+                stmt_start = pos + 1
+        k += 1
+    inside = lambda a, b: any(s0 <= a and b <= e0 for (s0, e0) in cut_ranges)
+    ents = [e for e in ents if not inside(e[0], e[1]) and (kinds is None or e[4] in kinds)]
+    want = set()
+    for t in cut_texts:
+        want |= set(_IDENT.findall(_strip_comments_strings(t)))
+    chosen = []
+    changed = True
+    while changed:
+        changed = False
+        for e in ents:
+            if e in chosen:
+                continue
+            hit = [nm for nm in e[2] if nm in want]
+            if not hit:
+                continue
+            if e[4] == "define":
+                if re.search(r"#[ \t]*define[ \t]+%s\b" % re.escape(e[2][0]), already):
+                    continue
+            elif any(re.search(r"\b%s\b" % re.escape(nm), already) for nm in e[2]):
+                continue
+            chosen.append(e)
+            want |= set(_IDENT.findall(_strip_comments_strings(e[3])))
+            changed = True
+    chosen.sort(key=lambda e: e[0])
+    # a macro defined several times in the file (#ifdef variants): all variants would clash - keep the first textual one
+    seen, out, names = set(), [], []
+    for e in chosen:
+        if e[4] == "define":
+            if e[2][0] in seen:
+                continue
+            seen.add(e[2][0])
+        line = src.count("\n", 0, e[0]) + 1
+        out.append('#line %d "%s"\n%s\n' % (line, path, e[3]))
+        names.append("%s %s" % (e[4], "/".join(e[2][:3]) + ("..." if len(e[2]) > 3 else "")))
+    return "".join(out), names
+
+
+def _looks_like_function_end(src, stmt_start, pos):
+    """the `}` at pos closes a brace block that started after a `)`: a function definition"""
+    seg = _strip_comments_strings(src[stmt_start:pos])
+    i = seg.find("{")
+    return i > 0 and seg[:i].rstrip().endswith(")")
+
+
 def extract_text(relfile, names, prelude_file, defines=(), decls=(), includes=()):
     """Text of the extraction translation unit (prelude + the functions `names` cut verbatim out of the real file, #line directives
     keep the real locations) -> (text, info, cut texts, prelude text).  No clang run: the native harnesses (replay, bounded oracles)
@@ -494,13 +601,22 @@ def extract_text(relfile, names, prelude_file, defines=(), decls=(), includes=()
             "defines_cut_from": [list(d) for d in defines], "decls_cut_from": [list(d) for d in decls], "functions": {}, "dropped": "logging macro calls (LOGP/printf-like) expand to nothing: their argument "
                                          "expressions are not evaluated; everything else is the unmodified text"}
     texts = {}
+    ranges = []
+    fparts = []
     for nm in names:
         s, e, line = cut_function(src, nm)
         text = src[s:e]
         texts[nm] = text
+        ranges.append((s, e))
         info["functions"][nm] = {"first_line": line, "last_line": line + text.count("\n"),
                                  "sha256": hashlib.sha256(text.encode()).hexdigest(), "bytes": len(text)}
-        parts.append('#line %d "%s"\n%s\n' % (line, path, text))
+        fparts.append('#line %d "%s"\n%s\n' % (line, path, text))
+    # file-local macros / constants / typedefs the cut text refers to (verbatim from the same file), unless the prelude provides them
+    ctx, ctx_names = file_local_context(src, path, ranges, list(texts.values()), prelude)
+    if ctx:
+        parts.append(ctx)
+        info["file_local_definitions_cut_along"] = ctx_names
+    parts += fparts
     return "\n".join(parts), info, texts, prelude
 
 
